@@ -32,10 +32,69 @@ Proof.
     + constructor; [left; reflexivity|exact IH].
 Qed.
 
-Theorem resolve_shape enc p p' ch : resolve enc p = (p', ch) -> Forall2 (same_but_count ch) (cut_end p) p'.
+(* ... or the expression of the base-fixing statement replaced by the literal recorded *)
+Definition same_but (ch : list (expr * Z)) (s s' : stmt) : Prop :=
+  same_but_count ch s s' \/
+  exists e v, In (e, v) ch /\ ((s = Link e /\ s' = Link (zlit v)) \/ (s = Skip e /\ s' = Skip (zlit v))).
+
+Lemma same_but_mono ch ch' a b : (forall x, In x ch -> In x ch') -> same_but ch a b -> same_but ch' a b.
 Proof.
-  unfold resolve. destruct (find_base _ _ _ _ _ _); try (intros H; inversion H; subst; clear; induction (cut_end p); constructor; auto; left; reflexivity).
-  apply resolve_list_shape.
+  intros Hi [[E|[ce [v [body [E1 [E2 [Hin Hr]]]]]]]|[e [v [Hin Hr]]]].
+  - left; left; exact E.
+  - left; right. exists ce, v, body. auto.
+  - right. exists e, v. auto.
+Qed.
+
+Lemma same_but_weaken ch ch' l l' : (forall x, In x ch -> In x ch') -> Forall2 (same_but_count ch) l l' -> Forall2 (same_but ch') l l'.
+Proof.
+  intros Hi. induction 1 as [|a b l l' Hab _ IH]; constructor; auto.
+  apply (same_but_mono ch); [exact Hi|left; exact Hab].
+Qed.
+
+Lemma resolve_set_shape enc D K X labs e v : forall l l' ch2, top_base l = Some e ->
+  resolve_list enc D K X labs (set_base (zlit v) l) = (l', ch2) -> Forall2 (same_but ((e, v) :: ch2)) l l'.
+Proof.
+  induction l as [|x r IH]; intros l' ch2 HT H; [discriminate|].
+  assert (TAIL : forall r0 r' ch0, resolve_list enc D K X labs r0 = (r', ch0) -> (forall y, In y ch0 -> In y ch2) ->
+                 Forall2 (same_but ((e, v) :: ch2)) r0 r').
+  { intros r0 r' ch0 Hr Hi. eapply same_but_weaken; [|eapply resolve_list_shape; exact Hr]. intros y Hy. right. auto. }
+  destruct x; cbn [top_base set_base] in HT, H;
+    try (cbn [resolve_list] in H; destruct (resolve_list enc D K X labs (set_base (zlit v) r)) as [r' ch0] eqn:ER;
+         inversion H; subst; constructor; [left; left; reflexivity|apply IH; [exact HT|reflexivity]]).
+  - (* Link *) inversion HT; subst. cbn [resolve_list] in H. destruct (resolve_list enc D K X labs r) as [r' ch0] eqn:ER.
+    inversion H; subst. constructor; [right; exists e, v; split; [left; reflexivity|auto]|]. eapply TAIL; eauto.
+  - (* Skip *) inversion HT; subst. cbn [resolve_list] in H. destruct (resolve_list enc D K X labs r) as [r' ch0] eqn:ER.
+    inversion H; subst. constructor; [right; exists e, v; split; [left; reflexivity|auto]|]. eapply TAIL; eauto.
+  - (* Repeat *)
+    cbn [resolve_list] in H. destruct (resolve_list enc D K X labs (set_base (zlit v) r)) as [r' ch0] eqn:ER.
+    assert (T0 : forall c, (forall y, In y ch0 -> In y c) -> Forall2 (same_but ((e, v) :: c)) r r').
+    { intros c Hc. eapply Forall2_impl2; [|apply (IH r' ch0 HT eq_refl)]. intros a b Hab. eapply same_but_mono; [|exact Hab].
+      intros y [<-|Hy]; [left; reflexivity|right; auto]. }
+    destruct (nodot count) eqn:Nd; [|inversion H; subst; constructor; [left; left; reflexivity|apply T0; auto]].
+    destruct (peval enc D K X labs count) as [pp|]; [|inversion H; subst; constructor; [left; left; reflexivity|apply T0; auto]].
+    destruct (Poly.is_const pp && (0 <=? Poly.const pp)) eqn:C; inversion H; subst.
+    + apply andb_true_iff in C. destruct C as [_ C]. apply Z.leb_le in C. constructor.
+      * left. right. exists count, (Poly.const pp), body. repeat split; auto. right. left. reflexivity.
+      * apply T0. intros y Hy. right. exact Hy.
+    + constructor; [left; left; reflexivity|apply T0; auto].
+  - (* Include *) destruct own.
+    + cbn [resolve_list] in H. destruct (resolve_list enc D K X labs (set_base (zlit v) r)) as [r' ch0] eqn:ER.
+      inversion H; subst. constructor; [left; left; reflexivity|apply IH; [exact HT|reflexivity]].
+    + discriminate.
+Qed.
+
+Theorem resolve_shape enc p p' ch : resolve enc p = (p', ch) -> Forall2 (same_but ch) (cut_end p) p'.
+Proof.
+  assert (R : forall c l0, Forall2 (same_but c) l0 l0) by (intros c l0; induction l0; constructor; auto; left; left; reflexivity).
+  unfold resolve. destruct (find_base _ _ _ _ _ (cut_end p)) eqn:FB;
+    try (destruct (resolve_base _ _ _ _ (cut_end p)) as [[e bv]|] eqn:RB; [|intros H; inversion H; subst; apply R]);
+    try (intros H; eapply same_but_weaken; [|eapply resolve_list_shape; exact H]; auto).
+  all: unfold resolve_base in RB; destruct (top_base (cut_end p)) as [e0|] eqn:TB; try discriminate;
+       destruct (nodot e0); try discriminate;
+       destruct (peval _ _ _ _ _ e0) as [pp|]; try discriminate; destruct (Poly.is_const pp); try discriminate; inversion RB; subst;
+       destruct (find_base _ _ _ _ _ (set_base _ _)); try (intros H; inversion H; subst; apply R);
+       destruct (resolve_list _ _ _ _ _ (set_base _ _)) as [q2 ch2] eqn:RL; intros H; inversion H; subst;
+       eapply resolve_set_shape; eauto.
 Qed.
 
 (* an answer of assemble_rel is an answer of Model/Asm.v for the rewritten program, and every rewritten count
